@@ -18,7 +18,7 @@ import (
 
 // ---- C05: format and content rules accept exactly their documented language ----
 
-var fsPaths struct{ file, dir, missing, root string }
+var fsPaths struct{ file, dir, missing, root, linkFile, linkDir, dangling, loop string }
 
 // setupFS creates the ground truth for file / dir: a regular file, a directory, a missing path.
 func setupFS() func() {
@@ -32,7 +32,16 @@ func setupFS() func() {
 	fsPaths.missing = filepath.Join(root, "nothing-here")
 	_ = os.WriteFile(fsPaths.file, []byte("x"), 0o644)
 	_ = os.Mkdir(fsPaths.dir, 0o755)
-	fsEnv = &model.Env{Files: map[string]bool{fsPaths.file: true}, Dirs: map[string]bool{fsPaths.dir: true, root: true}}
+	// symbolic links: to the file, to the directory, to nothing (dangling), to itself (loop)
+	fsPaths.linkFile, fsPaths.linkDir = filepath.Join(root, "ln-file"), filepath.Join(root, "ln-dir")
+	fsPaths.dangling, fsPaths.loop = filepath.Join(root, "ln-dangling"), filepath.Join(root, "ln-loop")
+	_ = os.Symlink(fsPaths.file, fsPaths.linkFile)
+	_ = os.Symlink(fsPaths.dir, fsPaths.linkDir)
+	_ = os.Symlink(filepath.Join(root, "gone"), fsPaths.dangling)
+	_ = os.Symlink(fsPaths.loop, fsPaths.loop)
+	// (links are followed: a link to a file is a file, a link to a directory a directory; a dangling
+	// link or a link loop names nothing, like a missing path)
+	fsEnv = &model.Env{Files: map[string]bool{fsPaths.file: true, fsPaths.linkFile: true}, Dirs: map[string]bool{fsPaths.dir: true, root: true, fsPaths.linkDir: true}}
 	return func() { os.RemoveAll(root) }
 }
 
@@ -301,9 +310,10 @@ func genC05CaseFor(t *rapid.T, rule string) (c *ScalarCase, class string) {
 		}
 		c.RePats[item] = p.pat
 	case "file", "dir":
-		p := rapid.SampledFrom([]string{fsPaths.file, fsPaths.dir, fsPaths.missing, fsPaths.root}).Draw(t, "path")
+		p := rapid.SampledFrom([]string{fsPaths.file, fsPaths.dir, fsPaths.missing, fsPaths.root, fsPaths.linkFile, fsPaths.linkDir, fsPaths.dangling, fsPaths.loop}).Draw(t, "path")
 		c.T, c.Val = strVal(p)
-		class = map[string]string{fsPaths.file: "regular-file", fsPaths.dir: "directory", fsPaths.missing: "missing-path", fsPaths.root: "directory"}[p]
+		class = map[string]string{fsPaths.file: "regular-file", fsPaths.dir: "directory", fsPaths.missing: "missing-path", fsPaths.root: "directory",
+			fsPaths.linkFile: "link-to-file", fsPaths.linkDir: "link-to-directory", fsPaths.dangling: "dangling-link", fsPaths.loop: "link-loop"}[p]
 	}
 	// custom message (half of the cases), neighbours in the rule list so the splitter is exercised
 	if rapid.Bool().Draw(t, "withMsg") {
@@ -405,6 +415,14 @@ func fixFSPaths(c *ScalarCase) {
 				c.Val.S = fsPaths.dir
 			case "nothing-here":
 				c.Val.S = fsPaths.missing
+			case "ln-file":
+				c.Val.S = fsPaths.linkFile
+			case "ln-dir":
+				c.Val.S = fsPaths.linkDir
+			case "ln-dangling":
+				c.Val.S = fsPaths.dangling
+			case "ln-loop":
+				c.Val.S = fsPaths.loop
 			}
 		}
 	}
